@@ -48,6 +48,19 @@ class Check(BaseCheck):
             yield dict(v=v, t=t, it=it, name=name, pres=c.get("pres"))
         for c in gen.narrow_cases():
             yield dict(v=c["v"], t=c["t"], it=1, name=c["name"], pres=c["pres"])
+        # parts that coincide GEOMETRICALLY but have their own vertices (connectivity is a matter of indices, not of positions): two cubes stacked
+        # face to face, a tube whose seam vertices are duplicated, a surface and a copy of itself in the same place
+        cv = np.array([[0, 0, 0], [1, 0, 0], [1, 1, 0], [0, 1, 0], [0, 0, 1], [1, 0, 1], [1, 1, 1], [0, 1, 1]], float)
+        ct = np.array([[0, 2, 1], [0, 3, 2], [4, 5, 6], [4, 6, 7], [0, 1, 5], [0, 5, 4], [1, 2, 6], [1, 6, 5], [2, 3, 7], [2, 7, 6], [3, 0, 4], [3, 4, 7]])
+        v2, t2 = gen.union((cv, ct), (cv, ct), shift=(0.0, 0.0, 1.0))
+        yield dict(v=v2, t=t2, it=1, name="coincident:stacked-cubes")
+        yield dict(v=v2, t=t2, it=2, name="coincident:stacked-cubes")
+        gv, gt = gen.grid(4, 2)
+        gv = np.array(gv, float); ang = gv[:, 0] / gv[:, 0].max() * 2 * np.pi          # rolled up: first and last column of vertices coincide
+        yield dict(v=np.column_stack([np.cos(ang), np.sin(ang), gv[:, 1]]), t=np.array(gt), it=1, name="coincident:seam-tube")
+        ov, ot = gen.octahedron()
+        v3, t3 = gen.union((ov, ot), (ov, ot), shift=(0.0, 0.0, 0.0))
+        yield dict(v=v3, t=t3, it=1, name="coincident:double-octahedron")
         # vertex arrays of integer dtype (voxel-grid meshes): midpoints are half-integers
         ov, ot = gen.octahedron()
         yield dict(v=np.round(ov * 3), t=ot, it=1, name="int-octahedron", vdtype="int32")
